@@ -2,8 +2,21 @@
 Proof: coq/Props/C01.v (stack machine refines the environment semantics for every expression and every stack; for = cartesian product).
 Correspondence: random well-typed (and some ill-typed) expressions of the core fragment, parse_expression + evaluate of the working tree
 vs coq/C01/Impl.v `run` and coq/C01/Spec.v `eval` by vm_compute."""
+import decimal
 import json
 from decimal import Decimal
+
+decimal.getcontext().prec = 200          # exact handling of 34-digit coefficients
+decimal.getcontext().Emax = 999999
+decimal.getcontext().Emin = -999999
+
+
+def numc(d):
+    """canonical form of a number: the text of the normalised exact decimal (value comparison, not representation)"""
+    d = Decimal(d)
+    if d == 0:
+        return {'num': '0'}
+    return {'num': str(d.normalize())}
 
 from vlib import core
 from vlib.coqterm import App
@@ -25,7 +38,8 @@ def mval(t):
         if n == 'VBool':
             return a[0]
         if n == 'VNum':
-            return {'num': a[0]}
+            d = a[0]
+            return numc(Decimal((1 if d['neg'] else 0, tuple(int(c) for c in str(d['coef'])), d['expo'])))
         if n == 'VStr':
             return ''.join(chr(c) for c in a[0])
         if n == 'VList':
@@ -55,7 +69,9 @@ def ival(j):
                 d = Decimal(j['n'])
             except Exception:
                 return {'num': j['n']}
-            return {'num': int(d)} if d == d.to_integral_value() else {'num': str(d)}
+            if not d.is_finite():
+                return {'num': j['n']}
+            return numc(d)
         if 'c' in j:
             return {'c': sorted([[k, ival(v)] for k, v in j['c']])}
         if 'r' in j:
@@ -75,7 +91,7 @@ def probes():
     # dynamic scoping of function bodies: {vb: 1, vf: function(va) va + vb, vg: function(vb) vf(1), vh: vg(10)}.vh  — lexical: 2
     e = ('path', ('ctx', ((102, n(1)), (106, ('fun', (101,), ('bin', 'Add', nm(101), nm(102)))), (107, ('fun', (102,), ('call', nm(106), (n(1),)))),
                           (108, ('call', nm(107), (n(10),))))), 108)
-    out.append(('dynamic-scope', (), e, {'num': 2}))
+    out.append(('dynamic-scope', (), e, numc(2)))
     return out
 
 
